@@ -121,12 +121,17 @@ def run(ctx, eng):
     ok = False
     for p in paths:
         r = cm.explicit_raise(p)
+        info = any(e.kind == 'assume' and 'is_informational_response' in
+                   cm.show0(e.cond) and e.cond[0] != 'not'
+                   for e in p.events)
         if r is not None and not cm.process_inputs(p) and \
-                cm.param_truth(p, 'end_stream') and any(
-                    e.kind == 'assume' and 'is_informational_response' in
-                    cm.show0(e.cond) and e.cond[0] != 'not'
-                    for e in p.events):
+                cm.param_truth(p, 'end_stream') and info:
             ok = True
+        elif info and cm.param_truth(p, 'end_stream') and \
+                cm.process_inputs(p):
+            # ... on every such path, not on some
+            ok = False
+            break
     ctx.ob('ORD.informational', fi.qual,
            'END_STREAM on 1xx refused before the state step', ok,
            'ProtocolError before process_input when end_stream and 1xx',
